@@ -188,7 +188,7 @@ func vC43_consumerStep(kind int) {
 		}
 	}
 	x.confirmedSeq = vNondetInt64("confirmedSeq")
-	vAssume(x.confirmedSeq >= 0 && x.confirmedSeq < 1<<62)
+	vAssume(x.confirmedSeq >= 0 && x.confirmedSeq < int64(1)<<vCase("seqBits")) // 16 in the quick tier, 61 in the thorough tier
 	x.expectedSeq = x.confirmedSeq + 1
 	x.requestUpToSeq = vNondetInt64("requestUpToSeq")
 	nbuf := vCase("bufLen")
